@@ -401,6 +401,7 @@ func (w *walker) callRules(e *ast.CallExpr, fs *ast.SelectorExpr) {
 
 // useIdent is called for every use of a local variable as a value.
 func (w *walker) useIdent(id *ast.Ident) {
+	w.globalRead(id)
 	if w.rules == nil {
 		return
 	}
